@@ -7,7 +7,7 @@ CLAIMED = sys.argv[1:]
 props = [json.loads(l) for l in open(os.path.join(V, "properties.jsonl"))]
 NOTE = {
  "C20": "PARTIAL: proof covers the shape-strictness clause (generic shape-check model theorems + contracts re-extracted from the source on every run); the stacked=row-by-row clause is proved per function in the other properties and validated here over the whole API; purity/determinism are validated only (a Gallina function cannot mutate its argument).",
- "C10": "PARTIAL: properness, axis, perpendicular turn, round trips (generic + half-turn), norm bound, Jacobian composition and dispatch are proved; 'forward Jacobian equals the derivative' and the 2.5e-5 snapping tolerance are sampled by the oracle only (finite differences).",
+ "C10": "Properness, axis, perpendicular turn, round trips (generic + half-turn), norm bound, Jacobian = derivative (all 27 entries, Coquelicot), Jacobian composition and dispatch are proved; PARTIAL: the derivative at |r| < eps w.r.t. the exact map and the 2.5e-5 snapping tolerance near 0 and pi are sampled by the oracle only; SVD/acos/cos/sin are trusted through stated contracts.",
  "C09": "Refinement of every listed operation (incl. the sort-based insertion and both index maps, for all sizes) and of every finite history to the list-of-points spec is proved; PARTIAL only in that immutability/aliasing (not a Gallina notion) is validated by the harness, not proved.",
  "C07": "PARTIAL: nearest/closest-point clauses proved for all inputs; sub-path clauses proved under explicit simplicity hypotheses (open polylines); one known finding (ret_t_values alone) pinned by the test-suite.",
  "C08": "PARTIAL: arc-length and subdivision clauses proved; total-length preservation and continuity are checked by the oracle only.",
